@@ -60,6 +60,23 @@ theorem item_mem {bits e x : Nat} (he : e < 2 ^ bits) (hx : x < 2 ^ bits) :
       rw [h1, h2]
   · intro h i _; rw [h]
 
+/-- for any machine integer: the cube of `e` holds exactly `e mod 2^bits` (only the low bits are read) -/
+theorem item_mem' {bits e x : Nat} (hx : x < 2 ^ bits) :
+    mem (item bits e) x = true ↔ x = e % 2 ^ bits := by
+  unfold mem item
+  rw [eval_item_aux]
+  simp only [eval_mkConst, Bool.true_and, List.all_eq_true, List.mem_range, beq_iff_eq, asgOfElem, categorize]
+  constructor
+  · intro h
+    apply Nat.eq_of_testBit_eq
+    intro i
+    rw [Nat.testBit_mod_two_pow]
+    by_cases hi : i < bits
+    · have := h i hi; simp [hi]; simpa using this
+    · have h1 : x.testBit i = false := Nat.testBit_lt_two_pow (Nat.lt_of_lt_of_le hx (Nat.pow_le_pow_right (by omega) (by omega)))
+      simp [h1, hi]
+  · intro h i hi; rw [h, Nat.testBit_mod_two_pow]; simp [hi]
+
 /-- a well-formed set diagram: ordered, reduced, and testing only the bit variables -/
 def WFSet (bits : Nat) (s : BDD) : Prop := ROBDD s ∧ ∀ v ∈ support s, v < bits
 
@@ -137,17 +154,104 @@ theorem contains_iff {bits e : Nat} {s : BDD} (hs : WFSet bits s) (he : e < 2 ^ 
       simp only [mem] at h
       simp [h]
 
+/-- the query for any machine integer asks for its low `bits` bits -/
+theorem contains_iff' {bits e : Nat} {s : BDD} (hs : WFSet bits s) :
+    BDD.and s (item bits e) = item bits e ↔ mem s (e % 2 ^ bits) = true := by
+  have hi := wf_item bits e
+  have hlt : e % 2 ^ bits < 2 ^ bits := Nat.mod_lt _ (Nat.two_pow_pos _)
+  constructor
+  · intro h
+    have h1 : mem (item bits e) (e % 2 ^ bits) = true := (item_mem' hlt).mpr rfl
+    have : eval (BDD.and s (item bits e)) (asgOfElem (e % 2 ^ bits)) = true := by rw [h]; exact h1
+    rw [BDD.eval_and] at this
+    simp only [mem]
+    simp only [Bool.and_eq_true] at this
+    exact this.1
+  · intro h
+    apply canonical_from (wf_and hs hi).1.1 (wf_and hs hi).1.2 hi.1.1 hi.1.2
+    intro σ
+    rw [BDD.eval_and]
+    cases hit : eval (item bits e) σ
+    · simp
+    · have hagree : ∀ i, i < bits → σ i = asgOfElem (e % 2 ^ bits) i := by
+        have := hit
+        unfold item at this
+        rw [eval_item_aux] at this
+        simp only [eval_mkConst, Bool.true_and, List.all_eq_true, List.mem_range, beq_iff_eq] at this
+        intro i hi'
+        rw [this i hi']
+        simp [asgOfElem, categorize, Nat.testBit_mod_two_pow, hi']
+      have : eval s σ = eval s (asgOfElem (e % 2 ^ bits)) := eval_eq_of_agree_below hs.2 hagree
+      rw [this]
+      simp only [mem] at h
+      simp [h]
+
+/-- the assignment `σ` presents this integer on the bit variables -/
+def elemOf (σ : Asg) : Nat → Nat
+  | 0 => 0
+  | n + 1 => elemOf σ n + (if σ n then 0 else 2 ^ n)
+
+theorem elemOf_lt (σ : Asg) : ∀ n, elemOf σ n < 2 ^ n := by
+  intro n
+  induction n with
+  | zero => simp [elemOf]
+  | succ n ih =>
+    simp only [elemOf]
+    split <;> simp [Nat.pow_succ] <;> omega
+
+theorem elemOf_testBit (σ : Asg) : ∀ n i, i < n → (elemOf σ n).testBit i = !σ i := by
+  intro n
+  induction n with
+  | zero => intro i hi; omega
+  | succ n ih =>
+    intro i hi
+    simp only [elemOf]
+    have hlt := elemOf_lt σ n
+    by_cases hin : i = n
+    · subst hin
+      cases hs : σ i
+      · simp only [Bool.false_eq_true, ↓reduceIte, Bool.not_false]
+        rw [Nat.add_comm, Nat.testBit_two_pow_add_eq]
+        simp [Nat.testBit_lt_two_pow hlt]
+      · simp [Nat.testBit_lt_two_pow hlt]
+    · have hi' : i < n := by omega
+      cases hs : σ n
+      · simp only [Bool.false_eq_true, ↓reduceIte]
+        rw [Nat.add_comm, Nat.testBit_two_pow_add_gt hi']
+        exact ih i hi'
+      · simp [ih i hi']
+
+/-- two well-formed set diagrams are the same diagram exactly when they have the same members:
+the derived `==` on sets of one environment decides set equality -/
+theorem eq_iff_mem {bits : Nat} {a b : BDD} (ha : WFSet bits a) (hb : WFSet bits b) :
+    a = b ↔ ∀ x, x < 2 ^ bits → mem a x = mem b x := by
+  constructor
+  · intro h x _; rw [h]
+  · intro h
+    apply canonical_from ha.1.1 ha.1.2 hb.1.1 hb.1.2
+    intro σ
+    have hag : ∀ i, i < bits → σ i = asgOfElem (elemOf σ bits) i := by
+      intro i hi
+      simp [asgOfElem, categorize, elemOf_testBit σ bits i hi]
+    rw [eval_eq_of_agree_below ha.2 hag, eval_eq_of_agree_below hb.2 hag]
+    exact h _ (elemOf_lt σ bits)
+
+
 /-- reference sets: characteristic functions on b-bit integers -/
 abbrev RefSet := Nat → Bool
 
-def refStep (r : List RefSet) : SetOp → List RefSet × Option Bool
-  | .insert i e => (r.set i (fun x => (r.getD i (fun _ => false)) x || decide (x = e)), none)
+def refStep (bits : Nat) (r : List RefSet) : SetOp → List RefSet × Option Bool
+  | .insert i e => (r.set i (fun x => (r.getD i (fun _ => false)) x || decide (x = e % 2 ^ bits)), none)
   | .union i j => (r.set i (fun x => (r.getD i (fun _ => false)) x || (r.getD j (fun _ => false)) x), none)
   | .intersect i j => (r.set i (fun x => (r.getD i (fun _ => false)) x && (r.getD j (fun _ => false)) x), none)
   | .complement i j => (r.set i (fun x => (r.getD i (fun _ => false)) x && !((r.getD j (fun _ => false)) x)), none)
   | .empty i => (r.set i (fun _ => false), none)
   | .universe i => (r.set i (fun _ => true), none)
-  | .contains i e => (r, some ((r.getD i (fun _ => false)) e))
+  | .contains i e => (r, some ((r.getD i (fun _ => false)) (e % 2 ^ bits)))
+  | .newSet => (r ++ [((fun _ => false) : RefSet)], none)
+  | .fromElement e => (r ++ [((fun x => decide (x = e % 2 ^ bits)) : RefSet)], none)
+  | .clone i => (r ++ [r.getD i (fun _ => false)], none)
+  | .equal i j => (r, some (decide (∀ x, x < 2 ^ bits → (r.getD i (fun _ => false)) x = (r.getD j (fun _ => false)) x)))
 
 /-- the model's sets and the reference sets have the same members below `2^bits` -/
 def Agree (st : State) (r : List RefSet) : Prop :=
@@ -169,36 +273,61 @@ theorem agree_set {st : State} {r : List RefSet} (h : Agree st r) {i : Nat} {s' 
       have hlt' : i < r.length := by rw [← h.1]; exact hlt
       refine ⟨hw, fun x hx => ?_⟩
       rw [hs x hx]
-      simp [List.getD_eq_getElem?_getD, List.getElem?_set, hlt']
+      simp [List.getD_eq_getElem?_getD, hlt']
     · simp [hlt] at hk
   · rw [List.getElem?_set] at hk
     simp [hki] at hk
     obtain ⟨w, hm⟩ := h.2 k s hk
     refine ⟨w, fun x hx => ?_⟩
     rw [hm x hx]
-    simp [List.getD_eq_getElem?_getD, List.getElem?_set, hki]
+    simp [List.getD_eq_getElem?_getD, hki]
 
 /-- every operation keeps the sets in agreement with the reference and answers like it -/
+theorem agree_push {st : State} {r : List RefSet} (h : Agree st r) {s' : BDD} {f : RefSet}
+    (hw : WFSet st.bits s') (hs : ∀ x, x < 2 ^ st.bits → mem s' x = f x) :
+    Agree { st with sets := st.sets ++ [s'] } (r ++ [f]) := by
+  refine ⟨by simp [h.1], ?_⟩
+  intro k s hk
+  simp only at hk
+  by_cases hlt : k < st.sets.length
+  · rw [List.getElem?_append_left hlt] at hk
+    obtain ⟨w, hm⟩ := h.2 k s hk
+    refine ⟨w, fun x hx => ?_⟩
+    rw [hm x hx]
+    have hlt' : k < r.length := by rw [← h.1]; exact hlt
+    simp [List.getD_eq_getElem?_getD, List.getElem?_append_left hlt']
+  · rw [List.getElem?_append_right (by omega)] at hk
+    have hk0 : k - st.sets.length = 0 := by
+      cases hd : k - st.sets.length with
+      | zero => rfl
+      | succ n => rw [hd] at hk; simp at hk
+    rw [hk0] at hk
+    simp at hk; subst hk
+    refine ⟨hw, fun x hx => ?_⟩
+    rw [hs x hx]
+    have : k = r.length := by rw [← h.1]; omega
+    simp [List.getD_eq_getElem?_getD, this]
+
+/-- every operation (for every machine integer as element, every index pair — including
+`i = j` — and every constructor) keeps the sets in agreement with the reference and answers like it -/
 theorem step_refines {st st' : State} {r : List RefSet} {op : SetOp} {ans : Option Bool}
-    (h : Agree st r) (hop : ∀ i e, (op = .insert i e ∨ op = .contains i e) → e < 2 ^ st.bits)
-    (hs : step st op = some (st', ans)) :
-    Agree st' (refStep r op).1 ∧ st'.bits = st.bits ∧ ans = (refStep r op).2 := by
+    (h : Agree st r) (hs : step st op = some (st', ans)) :
+    Agree st' (refStep st.bits r op).1 ∧ st'.bits = st.bits ∧ ans = (refStep st.bits r op).2 := by
   cases op with
   | insert i e =>
     simp only [step, Option.map_eq_some_iff] at hs
     obtain ⟨s, hsi, hpair⟩ := hs
     cases hpair
-    have he := hop i e (Or.inl rfl)
     obtain ⟨hw, hm⟩ := h.2 i s hsi
     refine ⟨agree_set h (wf_or hw (wf_item _ _)) (fun x hx => ?_), rfl, rfl⟩
     simp only [mem, BDD.eval_or]
     have h1 := hm x hx
     simp only [mem] at h1
     rw [h1]
-    have h2 := item_mem (bits := st.bits) he hx
+    have h2 := item_mem' (bits := st.bits) (e := e) hx
     simp only [mem] at h2
     cases hit : eval (item st.bits e) (asgOfElem x)
-    · have : ¬ x = e := fun e' => by rw [h2.mpr e'] at hit; simp at hit
+    · have : ¬ x = e % 2 ^ st.bits := fun e' => by rw [h2.mpr e'] at hit; simp at hit
       simp [this]
     · simp [h2.mp hit]
   | union i j =>
@@ -263,16 +392,59 @@ theorem step_refines {st st' : State} {r : List RefSet} {op : SetOp} {ans : Opti
     simp only [step, Option.map_eq_some_iff] at hs
     obtain ⟨s, hsi, hpair⟩ := hs
     cases hpair
-    have he := hop i e (Or.inr rfl)
     obtain ⟨hw, hm⟩ := h.2 i s hsi
     refine ⟨h, rfl, ?_⟩
     simp only [refStep]
     congr 1
-    rw [← hm e he]
-    have := contains_iff hw he
-    cases hx : mem s e
+    rw [← hm _ (Nat.mod_lt _ (Nat.two_pow_pos _))]
+    have := contains_iff' (e := e) hw
+    cases hx : mem s (e % 2 ^ st.bits)
     · simp [hx] at this; simp [this]
     · simp [hx] at this; simp [this]
+  | newSet =>
+    simp only [step, Option.some.injEq, Prod.mk.injEq] at hs
+    obtain ⟨rfl, rfl⟩ := hs
+    exact ⟨agree_push h (wf_const _ false) (fun x _ => by simp [mem]), rfl, rfl⟩
+  | fromElement e =>
+    simp only [step, Option.some.injEq, Prod.mk.injEq] at hs
+    obtain ⟨rfl, rfl⟩ := hs
+    refine ⟨agree_push h (wf_or (wf_const _ false) (wf_item _ _)) (fun x hx => ?_), rfl, rfl⟩
+    simp only [mem, BDD.eval_or, eval_mkConst, Bool.false_or]
+    have h2 := item_mem' (bits := st.bits) (e := e) hx
+    simp only [mem] at h2
+    cases hit : eval (item st.bits e) (asgOfElem x)
+    · have : ¬ x = e % 2 ^ st.bits := fun e' => by rw [h2.mpr e'] at hit; simp at hit
+      simp [this]
+    · simp [h2.mp hit]
+  | clone i =>
+    simp only [step, Option.map_eq_some_iff] at hs
+    obtain ⟨s, hsi, hpair⟩ := hs
+    cases hpair
+    obtain ⟨hw, hm⟩ := h.2 i s hsi
+    exact ⟨agree_push h hw hm, rfl, rfl⟩
+  | equal i j =>
+    simp only [step, Option.bind_eq_bind] at hs
+    cases hi : st.sets[i]? with
+    | none => simp [hi] at hs
+    | some a =>
+      cases hj : st.sets[j]? with
+      | none => simp [hi, hj] at hs
+      | some b =>
+        simp [hi, hj] at hs
+        obtain ⟨rfl, rfl⟩ := hs
+        obtain ⟨wa, ma⟩ := h.2 i a hi; obtain ⟨wb, mb⟩ := h.2 j b hj
+        refine ⟨h, rfl, ?_⟩
+        simp only [refStep]
+        congr 1
+        have := eq_iff_mem wa wb
+        by_cases hab : a = b
+        · simp only [hab, decide_true]
+          symm; rw [decide_eq_true_iff]
+          intro x hx; rw [← ma x hx, ← mb x hx, hab]
+        · simp only [hab, decide_false]
+          symm; rw [decide_eq_false_iff_not]
+          intro hall
+          exact hab (this.mpr (fun x hx => by rw [ma x hx, mb x hx]; exact hall x hx))
 
 /-- a query does not modify any set -/
 theorem contains_pure {st st' : State} {i e : Nat} {ans : Option Bool}
@@ -295,21 +467,20 @@ def run : State → List SetOp → Option (State × List (Option Bool))
     | none => none
     | some (st', a) => (run st' ops).map (fun r => (r.1, a :: r.2))
 
-def refRun : List RefSet → List SetOp → List RefSet × List (Option Bool)
+def refRun (bits : Nat) : List RefSet → List SetOp → List RefSet × List (Option Bool)
   | r, [] => (r, [])
-  | r, op :: ops => let r' := refStep r op; let rest := refRun r'.1 ops; (rest.1, r'.2 :: rest.2)
+  | r, op :: ops => let r' := refStep bits r op; let rest := refRun bits r'.1 ops; (rest.1, r'.2 :: rest.2)
 
 /-- for every history: the final sets agree with the reference sets and every query was
 answered like the reference -/
 theorem run_refines : ∀ (ops : List SetOp) (st : State) (r : List RefSet), Agree st r →
-    (∀ op ∈ ops, ∀ i e, (op = .insert i e ∨ op = .contains i e) → e < 2 ^ st.bits) →
     ∀ st' answers, run st ops = some (st', answers) →
-      Agree st' (refRun r ops).1 ∧ answers = (refRun r ops).2 := by
+      Agree st' (refRun st.bits r ops).1 ∧ answers = (refRun st.bits r ops).2 := by
   intro ops
   induction ops with
-  | nil => intro st r h _ st' answers hr; simp [run] at hr; obtain ⟨rfl, rfl⟩ := hr; exact ⟨h, rfl⟩
+  | nil => intro st r h st' answers hr; simp [run] at hr; obtain ⟨rfl, rfl⟩ := hr; exact ⟨h, rfl⟩
   | cons op ops ih =>
-    intro st r h hops st' answers hr
+    intro st r h st' answers hr
     simp only [run] at hr
     cases hst : step st op with
     | none => simp [hst] at hr
@@ -318,9 +489,36 @@ theorem run_refines : ∀ (ops : List SetOp) (st : State) (r : List RefSet), Agr
       simp only [hst, Option.map_eq_some_iff] at hr
       obtain ⟨⟨st2, as⟩, hrun, hpair⟩ := hr
       cases hpair
-      obtain ⟨h1, hb, ha⟩ := step_refines h (fun i e => hops op (by simp) i e) hst
-      have := ih st1 (refStep r op).1 h1 (fun o ho i e => by rw [hb]; exact hops o (by simp [ho]) i e) st2 as hrun
+      obtain ⟨h1, hb, ha⟩ := step_refines h hst
+      have := ih st1 (refStep st.bits r op).1 h1 st2 as hrun
+      rw [hb] at this
       exact ⟨this.1, by simp [refRun, ha, this.2]⟩
+
+/-- the equality query does not modify any set either -/
+theorem equal_pure {st st' : State} {i j : Nat} {ans : Option Bool}
+    (hs : step st (.equal i j) = some (st', ans)) : st' = st := by
+  simp only [step, Option.bind_eq_bind] at hs
+  cases hi : st.sets[i]? with
+  | none => simp [hi] at hs
+  | some a =>
+    cases hj : st.sets[j]? with
+    | none => simp [hi, hj] at hs
+    | some b => simp [hi, hj] at hs; exact hs.1.symm
+
+/-- a new object (`clone`, `from_element`, `with_env`) leaves every existing object as it was, and
+later operations on the copy do not reach the original: objects are independent cells -/
+theorem constructors_keep {st st' : State} {op : SetOp} {ans : Option Bool}
+    (hop : op = .newSet ∨ (∃ e, op = .fromElement e) ∨ ∃ i, op = .clone i)
+    (hs : step st op = some (st', ans)) : ∀ k, k < st.sets.length → st'.sets[k]? = st.sets[k]? := by
+  intro k hk
+  rcases hop with rfl | ⟨e, rfl⟩ | ⟨i, rfl⟩
+  · simp only [step, Option.some.injEq, Prod.mk.injEq] at hs
+    obtain ⟨rfl, _⟩ := hs; simp [List.getElem?_append_left hk]
+  · simp only [step, Option.some.injEq, Prod.mk.injEq] at hs
+    obtain ⟨rfl, _⟩ := hs; simp [List.getElem?_append_left hk]
+  · simp only [step, Option.map_eq_some_iff] at hs
+    obtain ⟨s, _, hpair⟩ := hs
+    cases hpair; simp [List.getElem?_append_left hk]
 
 /-- the initial state: every set empty -/
 theorem agree_init (bits n : Nat) :
@@ -341,5 +539,9 @@ theorem agree_init (bits n : Nat) :
 example : (run { bits := 2, sets := [BDD.mkConst false] }
     [.insert 0 1, .insert 0 2, .contains 0 1, .contains 0 2, .union 0 0, .contains 0 3]).map (·.2) =
     some [none, none, some true, some true, none, some false] := by decide +kernel
+-- elements beyond the width are read modulo 2^bits; a clone is independent of its original
+example : (run { bits := 2, sets := [BDD.mkConst false] }
+    [.insert 0 6, .contains 0 2, .clone 0, .equal 0 1, .insert 1 3, .equal 0 1, .contains 0 3, .fromElement 2, .equal 0 2]).map (·.2) =
+    some [none, some true, none, some true, none, some false, some false, none, some true] := by decide +kernel
 
 end Rsbdd.C19
